@@ -1,0 +1,14 @@
+//go:build verif
+
+package custom
+
+import (
+	"github.com/openkruise/rollouts/api/v1beta1"
+	"github.com/openkruise/rollouts/pkg/util/luamanager"
+)
+
+// VerifExecuteLuaForCanary exposes executeLuaForCanary (verification hook, build tag `verif` only).
+func VerifExecuteLuaForCanary(conf Config, spec Data, strategy *v1beta1.TrafficRoutingStrategy, luaScript string) (Data, error) {
+	r := &customController{conf: conf, luaManager: &luamanager.LuaManager{}}
+	return r.executeLuaForCanary(spec, strategy, luaScript)
+}
